@@ -314,7 +314,8 @@ def structures(ctx, seed):
 
 
 OPS = {"mul2": lambda x: x * 2.0, "add_self": lambda x: x + x, "neg": lambda x: -x, "slice": lambda x: x[1:3], "copy": lambda x: x.copy(),
-       "abs_sqrt": lambda x: abs(x).sqrt(), "div3": lambda x: x / 3.0, "rsub": lambda x: 1.0 - x, "invert": lambda x: x.invert()}
+       "abs_sqrt": lambda x: abs(x).sqrt(), "div3": lambda x: x / 3.0, "rsub": lambda x: 1.0 - x, "invert": lambda x: x.invert(),
+       "subtracted_from": lambda x: x.subtracted_from(offset=(0.3, -0.7)), "apply_mask_self": lambda x: x.apply_mask(mask=x.mask)}
 
 
 def rebuild(aa, d):
@@ -373,10 +374,22 @@ def run_derive(ctx, u):
                 if variant == "read_all_then_derive":
                     for n in quantities(x):
                         read(x, n)
+                src_before = {n: read(x, n) for n in quantities(x)} if variant == "read_all_then_derive" else None
                 d = op(x)
                 for n in names:
                     v = read(d, n)
                     ctx.check(v == basev[n], "derived.consistent", structure=sn, operation=on, quantity=n, variant=variant, fresh=basev[n][:70], got=v[:70])
+                if src_before is not None:
+                    # deriving an object changes nothing the source reports, and deriving a second time gives the same object again
+                    for n, b in src_before.items():
+                        a_ = read(x, n)
+                        ctx.check(a_ == b, "order.matches_baseline", quantity="source_structure." + n, baseline=b[:70], got=a_[:70], earlier_reads=["derive:" + on],
+                                  graph="structure-derivation:" + sn)
+                    d2 = op(x)
+                    for n in names:
+                        v2 = read(d2, n)
+                        ctx.check(v2 == basev[n], "derived.consistent", structure=sn, operation=on, quantity=n, variant="second_derivation_from_the_same_source",
+                                  fresh=basev[n][:70], got=v2[:70])
                 # a derived object must report quantities consistent with its own contents: compare with a fresh object of
                 # the same class constructed from those contents
                 try:
